@@ -558,6 +558,8 @@ class Rooms(Combinator[RoomsType]):
     ) -> Optional[Tuple[int, List[RoomsType]]]:
         height = env.height
         width = env.width
+        if height < 1 or width < 1:
+            raise ValueError("Rooms needs a board with at least one cell")
 
         combinator = Tupl(
             Grid(MultiDigit(base=2, digits=5), height=height, width=width - 1),
